@@ -88,6 +88,7 @@ type agg struct {
 	eventHashes  map[int]uint64 // run index -> event hash (first execution)
 	parRuns      int
 	parRaces     int
+	refCompared  int
 }
 
 func newAgg(nsites int) *agg {
@@ -187,7 +188,11 @@ func (sp *simProc) simBatch(in, out string, keep, par bool, reps int) (*BatchRes
 		args = append(args, "-reps", strconv.Itoa(reps))
 	}
 	os.Remove(out)
-	po := runProc(10*time.Minute, simEnv(sp.b, racelog, procs), bin, args...)
+	limit := 10 * time.Minute
+	if par {
+		limit = 90 * time.Second
+	}
+	po := runProc(limit, simEnv(sp.b, racelog, procs), bin, args...)
 	defer func() {
 		ms, _ := filepath.Glob(racelog + ".*")
 		for _, m := range ms {
@@ -229,6 +234,76 @@ func writeBatch(path string, b *Batch) {
 	if err := os.WriteFile(path, data, 0o644); err != nil {
 		fail2("%v", err)
 	}
+}
+
+// refReverse evaluates the cases of file `in` in reverse order in a fresh
+// uninstrumented process.
+func (sp *simProc) refReverse(in, out string) {
+	po := runProc(5*time.Minute, goEnv(""), sp.b.SimPlain, "ref", "-reverse", "-in", in, "-out", out)
+	if po.err != nil {
+		fail2("reverse-order reference evaluator failed: %v\n%s", po.err, tail(po.stderr, 4000))
+	}
+}
+
+func ecoOfOp(c *Case, op *Op) string {
+	if op.K == "vers" {
+		return "vers"
+	}
+	if op.E >= 0 && op.E < len(c.Spec.Ecos) {
+		return c.Spec.Ecos[op.E].Name
+	}
+	return "?"
+}
+
+// compareRefs compares two reference tables of the same cases computed by two
+// uninstrumented processes after different call histories (forward / reverse
+// order). Any difference is history dependence, decided without the simulator.
+func compareRefs(fw, rv *Batch) []*Violation {
+	var out []*Violation
+	seen := map[string]bool{}
+	for ci := range fw.Cases {
+		if ci >= len(rv.Cases) {
+			break
+		}
+		var a, b Exp
+		if json.Unmarshal(fw.Cases[ci].Exp, &a) != nil || json.Unmarshal(rv.Cases[ci].Exp, &b) != nil {
+			continue
+		}
+		c := &fw.Cases[ci]
+		mk := func(sig, detail string) {
+			v := &Violation{Class: "history-dependence", Engine: "ref", Batch: fw.Batch, RunIndex: c.Spec.Index, RunPos: ci,
+				Cases: append([]Case(nil), fw.Cases...), Sig: sig, Detail: detail}
+			if !seen[v.key()] {
+				seen[v.key()] = true
+				out = append(out, v)
+			}
+		}
+		for t := range a.Ops {
+			for i := range a.Ops[t] {
+				if t < len(b.Ops) && i < len(b.Ops[t]) && a.Ops[t][i] != b.Ops[t][i] {
+					op := &c.Spec.Tasks[t][i]
+					ob, _ := json.Marshal(op)
+					mk(ecoOfOp(c, op)+"/"+op.K, fmt.Sprintf("the same operation on freshly parsed values gives %q when the process evaluates the workload in forward order and %q in reverse order (two uninstrumented sequential processes) op=%s", a.Ops[t][i], b.Ops[t][i], ob))
+				}
+			}
+		}
+		for i := range a.Pre {
+			if i < len(b.Pre) && a.Pre[i] != b.Pre[i] {
+				op := &c.Spec.Prewarm[i]
+				mk(ecoOfOp(c, op)+"/"+op.K, fmt.Sprintf("pre-warm operation: forward %q reverse %q", a.Pre[i], b.Pre[i]))
+			}
+		}
+		for e := range a.Pool {
+			if e < len(b.Pool) {
+				pa, _ := json.Marshal(a.Pool[e])
+				pb, _ := json.Marshal(b.Pool[e])
+				if string(pa) != string(pb) {
+					mk(c.Spec.Ecos[e].Name+"/pool", fmt.Sprintf("observation of freshly parsed pool values differs between forward and reverse evaluation order: %s vs %s", oneLine(string(pa), 300), oneLine(string(pb), 300)))
+				}
+			}
+		}
+	}
+	return out
 }
 
 // violationsOf extracts candidate violations from one batch result.
@@ -486,6 +561,19 @@ func checkIn(cfg checkCfg, scratch string, t0 time.Time) int {
 				out := filepath.Join(sp.workdir, fmt.Sprintf("r%d.json", bn))
 				sp.genBatch(classified, cfg.seed, cfg.tier, bn, in)
 				bt := readBatch(in)
+				{
+					rout := filepath.Join(sp.workdir, fmt.Sprintf("rb%d.json", bn))
+					sp.refReverse(in, rout)
+					rv := readBatch(rout)
+					os.Remove(rout)
+					hv := compareRefs(bt, rv)
+					ag.mu.Lock()
+					ag.refCompared += len(bt.Cases)
+					for _, v := range hv {
+						ag.addViolation(v)
+					}
+					ag.mu.Unlock()
+				}
 				br, po := sp.simBatch(in, out, false, false, 1)
 				if br == nil {
 					if po.timed {
@@ -593,7 +681,17 @@ func checkIn(cfg checkCfg, scratch string, t0 time.Time) int {
 				ag.addViolation(v)
 				continue
 			}
-			fail2("real-parallel cross-check process for batch %d failed: %v\n%s", bn, po.err, tail(po.stderr, 4000))
+			if strings.Contains(po.stderr, "all goroutines are asleep - deadlock") {
+				v := &Violation{Class: "deadlock", Engine: "par", Batch: bn, Cases: bt.Cases, RunPos: len(bt.Cases) - 1,
+					Sig: "runtime: all goroutines are asleep " + firstLibFrame(po.stderr), Detail: tail(po.stderr, 3000)}
+				ag.addViolation(v)
+				continue
+			}
+			if len(ag.violations) > 0 {
+				fmt.Printf("vsim: real-parallel cross-check process for batch %d did not finish (%v); the simulator already reported violations, continuing\n", bn, po.err)
+				break
+			}
+			fail2("real-parallel cross-check process for batch %d failed or hung (timed out=%v): %v\n%s", bn, po.timed, po.err, tail(po.stderr, 4000))
 		}
 		var hr []string
 		vs := violationsOf(bt, br, "par", &hr)
@@ -616,10 +714,23 @@ func checkIn(cfg checkCfg, scratch string, t0 time.Time) int {
 
 	fid := <-fidCh
 	if strings.HasPrefix(fid, "FAIL: ") {
-		fail2("%s", strings.TrimPrefix(fid, "FAIL: "))
+		// Races and deadlocks are sound whatever the gate says (the instrumenter
+		// adds no shared accesses and no blocking); result mismatches are not.
+		sound := false
+		for k, v := range ag.violations {
+			if v.Class == "data-race" || v.Class == "deadlock" {
+				sound = true
+			} else {
+				delete(ag.violations, k)
+			}
+		}
+		if !sound {
+			fail2("%s", strings.TrimPrefix(fid, "FAIL: "))
+		}
+		fmt.Println("vsim: fidelity gate FAILED (result-mismatch candidates discarded; races/deadlocks are still reported):", oneLine(fid, 400))
 	}
 	b.Fidelity = fid
-	fmt.Println("vsim: fidelity gate:", fid)
+	fmt.Println("vsim: fidelity gate:", oneLine(fid, 300))
 
 	// ---- reach floor ----
 	var unreached []string
@@ -641,6 +752,9 @@ func checkIn(cfg checkCfg, scratch string, t0 time.Time) int {
 	minDeadline := time.Now().Add(time.Duration(cfg.minimiseS * float64(time.Second)))
 	for _, k := range keys {
 		v := ag.violations[k]
+		if v == nil {
+			continue
+		}
 		if kf := known.match(v); kf != nil {
 			fmt.Printf("KNOWN-FINDING: property=%s %s\n", propertyID, kf.What)
 			continue
